@@ -15,7 +15,7 @@ BASE = {
     "Keys": "<- c_Keys1", "KVals": "<- c_KVals2", "Names": "<- c_Names1", "Ids": "<- c_Ids2", "Vecs": "<- c_Vecs2",
     "MKeys": "<- c_MKeys1", "MVals": "<- c_MVals2", "Cfgs": "<- c_CfgsA", "Maints": "<- c_Maints1", "ALs": "<- c_ALs1",
     "Targets": "<- c_Targets", "GNodes": "<- c_Empty", "Rels": "<- c_Empty", "Ws": "<- c_Empty", "Ps": "<- c_Empty",
-    "GName": '"ix"', "CoreVacuum": "FALSE", "Seeded": "FALSE", "Devs": "<- c_Empty", "MaxFile": 3, "MaxCtr": 3, "MaxAcc": 1, "MaxVer": 2, "MaxOps": 5, "MaxRej": 2,
+    "GName": '"ix"', "CoreVacuum": "FALSE", "Seeded": "FALSE", "Imports": "FALSE", "Evolves": "FALSE", "AccSeeds": "<- c_Empty", "Devs": "<- c_Empty", "MaxFile": 3, "MaxCtr": 3, "MaxAcc": 1, "MaxVer": 2, "MaxOps": 5, "MaxRej": 2,
 }
 
 GRAPH = dict(BASE, **{
@@ -27,7 +27,8 @@ GRAPH = dict(BASE, **{
 GRAPH_Q = dict(GRAPH, **{"GNodes": "<- c_GNodes2", "Ps": "<- c_Ps1", "Ids": "<- c_Ids1"})
 # histories that start from an index already holding vectors a and b (no KV): three further operations reach
 # "snapshot; delete; re-add" and similar patterns that need six operations from the empty state
-SEEDED_BASE = dict(BASE, **{"Seeded": "TRUE", "Keys": "<- c_Empty", "KVals": "<- c_Empty", "MaxFile": 7, "MaxRej": 0})
+SEEDED_BASE = dict(BASE, **{"Seeded": "TRUE", "Keys": "<- c_Empty", "KVals": "<- c_Empty", "MaxFile": 7, "MaxRej": 0,
+                            "AccSeeds": "<- c_Acc1", "MaxAcc": 2})
 ADMIN_OPS = ("SaveSnapshot", "RewriteAOF", "VCompress")
 PASSIVE_OPS = ADMIN_OPS + ("Refine", "Vacuum", "Reopen")
 
@@ -49,6 +50,12 @@ SEEDED_IDS3 = dict(SEEDED_BASE, **{"Ids": "<- c_Ids3", "MaxCtr": 6, "MaxFile": 8
 # C12: behaviours start from an index holding vectors a and b, so deletes are reachable within short histories
 SEEDED = dict(GRAPH, **{"Seeded": "TRUE", "Ps": "<- c_Ps1", "Ws": "<- c_Ws1", "Maints": "<- c_Empty"})
 
+# bulk import (not journaled; committed by a snapshot) and wrong-dimension vectors
+IMPORT = dict(SEEDED_BASE, **{"Imports": "TRUE", "Vecs": "<- c_Vecs2b", "MaxRej": 1, "Maints": "<- c_Empty", "ALs": "<- c_Empty",
+                              "Targets": "<- c_Empty", "MaxCtr": 5, "MaxFile": 7})
+# VEvolve on the seeded graph: the minted id is the model id "g"
+EVOLVE = dict(SEEDED, **{"Evolves": "TRUE", "Ids": "<- c_Ids3g", "Vecs": "<- c_Vecs1b", "MaxRej": 1, "MaxCtr": 5, "MaxFile": 12})
+
 INVS = ["Inv_CleanRestart", "Inv_RestartIdempotent", "Inv_IdMaps", "Inv_ListedIsReadable", "Inv_FwdRevAgree", "Inv_OneActive", "Inv_NoEdgeToDead"]
 PROPS = ["Prop_RejectedNoChange", "Prop_MaintenanceInvisible", "Prop_ReopenIdentity", "Prop_DeleteTouchesOnlyIncident"]
 
@@ -57,7 +64,7 @@ def profile_for(consts, variant=0, dim=3):
     """Harness-side universe matching the constant sets of the model profile."""
     sets = {
         "c_Empty": [], "c_Keys1": ["k1"], "c_Names1": ["ix"], "c_Names2": ["ix", "iy"], "c_Ids2": ["a", "b"],
-        "c_Ids3": ["a", "b", "c"], "c_Ids1": ["a"], "c_MKeys1": ["k"], "c_GNodes3": ["a", "b", "g"], "c_GNodes2": ["a", "g"], "c_Rels1": ["r"], "c_Rels2": ["r", "q"],
+        "c_Ids3": ["a", "b", "c"], "c_Ids3g": ["a", "b", "g"], "c_Ids1": ["a"], "c_MKeys1": ["k"], "c_GNodes3": ["a", "b", "g"], "c_GNodes2": ["a", "g"], "c_Rels1": ["r"], "c_Rels2": ["r", "q"],
     }
     g = lambda k: sets[consts[k].replace("<- ", "")]
     return {"keys": g("Keys"), "names": g("Names"), "ids": g("Ids"), "mkeys": g("MKeys"), "gnodes": g("GNodes"),
@@ -74,8 +81,8 @@ def model_check(chk, name, consts, workers=None, timeout=900):
     return r
 
 
-def corpus(chk, name, consts, simulate=None, depth=None, workers=4, timeout=900):
-    cfg = make_cfg("SpecCorpus", consts, [], [], constraint="Bound", view="View")
+def corpus(chk, name, consts, simulate=None, depth=None, workers=4, timeout=900, rejleaf=False):
+    cfg = make_cfg("SpecCorpus", consts, [], [], constraint="BoundRejLeaf" if rejleaf else "Bound", view="ViewRej" if rejleaf else "View")
     r = run_tlc("MC_Kektor", name + ".cfg", cfg_text=cfg, workers=workers, timeout=timeout,
                 simulate=simulate, depth=depth, seed_=vlib.seed() if simulate else None)
     if not simulate:
@@ -116,27 +123,27 @@ def graph_only(div):
 
 
 def owner_of(div, beh):
-    """Which property a divergence belongs to (one defect is reported under one id)."""
+    """Which properties a divergence belongs to.  One defect is normally reported under one id; the
+    exception is persistence of the graph, which both C01 (restart reproduces edges, history and timestamps)
+    and C10/C12 (all of this survives restart and compaction) state."""
     kind = div["kind"]
     op = div.get("op") or {}
     name = op.get("op")
+    if kind == "rejected_changed_state" or (kind in ("model_mismatch", "result_mismatch") and op.get("res") == "err"):
+        return {"C05"}
     if graph_only(div):
         deleted_before = beh and any(s["op"].get("op") in ("VDelete", "VDeleteCut") and s["op"].get("res") == "ok"
                                      for s in beh["steps"][: div.get("step", 0) + 1])
-        if name in ("VDelete", "VDeleteCut") or (deleted_before and name in ("Reopen",)):
-            return "C12"
-        return "C10"
-    if kind in OWNER:
-        return OWNER[kind]
-    if kind == "model_mismatch":
+        if name in ("VDelete", "VDeleteCut"):
+            return {"C12"}
         if name == "Reopen":
-            return "C01"
-        if op.get("res") == "err":
-            return "C05"
-        return "C04"
-    if kind == "result_mismatch":
-        return "C05" if op.get("res") == "err" else "C04"
-    return "C04"
+            return {"C01", "C12" if deleted_before else "C10"}
+        return {"C10"}
+    if kind in OWNER:
+        return {OWNER[kind]}
+    if kind == "model_mismatch" and name == "Reopen":
+        return {"C01"}
+    return {"C04"}
 
 
 def without_rejected(beh, upto):
@@ -160,8 +167,8 @@ def judge(chk, prop, consts, behaviours, results):
                 alt = without_rejected(beh, div["step"])
                 r2 = vlib.run_sharded(binary, "engine", res["profile"], [alt], shards=1)
                 if not [d for d in r2.get("divergences", []) if d["kind"] in ("reopen_changed_state", "open_failed")]:
-                    own = "C05"
-            if own != prop:
+                    own = {"C05"}
+            if prop not in own:
                 continue
             kf = vlib.match_known(prop, div, beh)
             if kf:
@@ -235,6 +242,46 @@ def run(prop, tier):
         for i, b in enumerate(b4):
             b["id"] = "s3_%d" % i
         plans.append((s3, b4))
+    if use_base:
+        # bulk import (VImport is not journaled, VImportCommit snapshots) and wrong-dimension vectors
+        imp = dict(IMPORT, MaxOps=2 if quick else 3, MaxRej=0)
+        ci = corpus(chk, "MC_Kektor_import_corpus", imp, workers=8, timeout=3000)
+        b5, _ = vlib.behaviours_from_corpus(ci, max_behaviours=200 if quick else 20000, rng=rng,
+                                            need=lambda ops: any(o.get("op") in ("VImport", "VImportCommit") for o in ops[3:]))
+        for i, b in enumerate(b5):
+            b["id"] = "im%d" % i
+        plans.append((imp, b5))
+    if prop == "C05":
+        # every (reachable state, rejected call) pair: the rejected call is the last step, the replayer appends restarts
+        last_rej = lambda ops: ops[-1].get("res") == "err"
+        kind_of = lambda ops: ops[-1].get("op")
+        for nm, prof, mo in (("base", BASE, 2 if quick else 3), ("seeded_base", SEEDED_BASE, 2 if quick else 3),
+                             ("import", IMPORT, 2 if quick else 3), ("evolve", EVOLVE, 1 if quick else 2)):
+            pr = dict(prof, MaxOps=mo, MaxRej=1)
+            cr = corpus(chk, "MC_Kektor_rejected_" + nm, pr, workers=8, timeout=3000, rejleaf=True)
+            br, _ = vlib.behaviours_from_corpus(cr, max_behaviours=250 if quick else 60000, rng=rng, need=last_rej, stratum=kind_of)
+            for i, b in enumerate(br):
+                b["id"] = "rj_%s%d" % (nm, i)
+            plans.append((pr, br))
+    if prop in ("C01", "C04", "C10", "C12"):
+        # VEvolve on the seeded graph (incoming edges copied, superseded_by/evolves_from, historical flag)
+        ev = dict(EVOLVE, MaxOps=2, MaxRej=0)
+        if not quick:
+            model_check(chk, "MC_Kektor_evolve", ev, timeout=3000)
+        ce = corpus(chk, "MC_Kektor_evolve_corpus", ev, workers=8, timeout=3000)
+        cw = corpus(chk, "MC_Kektor_evolve_walks", dict(EVOLVE, MaxOps=9, MaxFile=16, MaxCtr=6, MaxRej=0, MaxVer=3),
+                    simulate=300 if quick else 3000, depth=9, workers=1)
+        has_ev = lambda ops: any(o.get("op") == "VEvolve" and o.get("res") == "ok" for o in ops)
+        if prop == "C12":
+            has_ev = lambda ops: any(o.get("op") == "VEvolve" and o.get("res") == "ok" for o in ops) and any(
+                o.get("op") in ("VDelete", "VDeleteCut") and o.get("res") == "ok" for o in ops[3:])
+        b6, _ = vlib.behaviours_from_corpus(ce, max_behaviours=100 if quick else 5000, rng=rng, need=has_ev)
+        b7, _ = vlib.behaviours_from_corpus(cw, max_behaviours=60 if quick else 1500, rng=rng, need=has_ev)
+        for i, b in enumerate(b6):
+            b["id"] = "ev%d" % i
+        for i, b in enumerate(b7):
+            b["id"] = "evw%d" % i
+        plans.append((ev, b6 + b7))
     if use_graph:
         if quick:
             model_check(chk, "MC_Kektor_graph", dict(GRAPH_Q, MaxOps=3), timeout=900)
